@@ -74,7 +74,7 @@ func lendBalances() sdk.Coins {
 
 // lendSetPrice sets the oracle price (TWA, active) of an underlying asset.
 func (u *lendU) SetPrice(assetID uint64, twa uint64, active bool) {
-	u.c.App.MarketKeeper.SetTwa(u.c.Ctx(), markettypes.TimeWeightedAverage{AssetID: assetID, ScriptID: 10, Twa: twa, CurrentIndex: 1, IsPriceActive: active})
+	u.c.SetTwa(markettypes.TimeWeightedAverage{AssetID: assetID, ScriptID: 10, Twa: twa, CurrentIndex: 1, IsPriceActive: active})
 }
 
 // Price returns the TWA in force and whether it is active.
